@@ -25,14 +25,46 @@ import (
 	du "github.com/thanos-io/thanos/zzverif/deduputil"
 )
 
-// One aggregate chunk: five aggregates (count, sum, min, max, counter); null = absent.
+// One aggregate chunk: the timestamps of its downsampled samples and the values of the
+// five aggregates (count, sum, min, max, counter; null = aggregate absent). All
+// aggregates are at the same timestamps; the counter has one value more (downsampling
+// repeats the last timestamp with the last raw value).
+type encChunk struct {
+	Ts   []int64      `json:"ts"`
+	Vals [5][]float64 `json:"vals"`
+}
+
 type achunk [5][]du.Sample
 
 type input struct {
 	// Chunks[0] is the base chunk (smallest MinTime), the others overlap the group.
 	// Every chunk is the only chunk of its own series.
-	Chunks  []achunk `json:"chunks"`
-	Present [][5]bool `json:"present,omitempty"` // default: all present
+	Chunks []encChunk `json:"chunks"`
+}
+
+func (e encChunk) decode() (achunk, [5]bool, error) {
+	var c achunk
+	var pr [5]bool
+	if len(e.Ts) == 0 {
+		return c, pr, fmt.Errorf("chunk without samples")
+	}
+	for a := 0; a < 5; a++ {
+		if e.Vals[a] == nil {
+			continue
+		}
+		pr[a] = true
+		tsx := e.Ts
+		if a == 4 {
+			tsx = append(append([]int64(nil), e.Ts...), e.Ts[len(e.Ts)-1])
+		}
+		if len(e.Vals[a]) != len(tsx) {
+			return c, pr, fmt.Errorf("aggregate %d: %d values for %d timestamps", a, len(e.Vals[a]), len(tsx))
+		}
+		for j, t := range tsx {
+			c[a] = append(c[a], du.Sample{float64(t), e.Vals[a][j]})
+		}
+	}
+	return c, pr, nil
 }
 
 func facts(repo string, w io.Writer) error {
@@ -201,11 +233,12 @@ func run(raw json.RawMessage) (common.Case, error) {
 		return c, fmt.Errorf("need 2..5 chunks")
 	}
 	present := make([][5]bool, len(in.Chunks))
-	for i := range present {
-		if i < len(in.Present) {
-			present[i] = in.Present[i]
-		} else {
-			present[i] = [5]bool{true, true, true, true, true}
+	dec := make([]achunk, len(in.Chunks))
+	for i := range in.Chunks {
+		var err error
+		dec[i], present[i], err = in.Chunks[i].decode()
+		if err != nil {
+			return c, err
 		}
 		if !present[i][0] {
 			return c, fmt.Errorf("the count aggregate must be present")
@@ -214,7 +247,7 @@ func run(raw json.RawMessage) (common.Case, error) {
 	lset := labels.FromStrings("__name__", "m")
 	var series []storage.ChunkSeries
 	var metas []chunks.Meta
-	for i, ch := range in.Chunks {
+	for i, ch := range dec {
 		for a := 0; a < 5; a++ {
 			for _, s := range ch[a] {
 				if !du.IsInt(s.V()) {
@@ -276,34 +309,74 @@ func run(raw json.RawMessage) (common.Case, error) {
 		return c, fmt.Errorf("merge error: %v", err)
 	}
 
-	coqChunk := func(ch achunk, pr [5]bool) string {
+	base := metas[0].MinTime
+	coqChunk := func(e encChunk) string {
+		tl := make([]int64, len(e.Ts))
+		for j, t := range e.Ts {
+			tl[j] = t - base
+		}
 		xs := make([]string, 5)
 		for a := 0; a < 5; a++ {
-			if pr[a] {
-				xs[a] = common.Some(du.CoqSamples(ch[a]))
-			} else {
+			if e.Vals[a] == nil {
 				xs[a] = common.None
+				continue
 			}
+			vs := make([]int64, len(e.Vals[a]))
+			for j, v := range e.Vals[a] {
+				vs[j] = int64(v)
+			}
+			xs[a] = common.Some(common.ZList(vs))
 		}
-		return common.List(xs)
+		return common.Pair(common.ZList(tl), common.List(xs))
 	}
-	var others []string
-	for i := 1; i < len(in.Chunks); i++ {
-		others = append(others, coqChunk(in.Chunks[i], present[i]))
+	var encs []string
+	for _, e := range in.Chunks {
+		encs = append(encs, coqChunk(e))
 	}
 	var outs []string
 	for _, oc := range out {
-		xs := make([]string, 5)
-		for a := 0; a < 5; a++ {
-			if oc.Has[a] {
-				xs[a] = common.Some(du.CoqObsSamples(oc.Aggr[a]))
+		cnt := make([]string, len(oc.Aggr[0]))
+		for j, o := range oc.Aggr[0] {
+			cnt[j] = du.CoqSample(o.T-base, o.V)
+		}
+		var xs []string
+		for a := 1; a < 5; a++ {
+			if !oc.Has[a] {
+				xs = append(xs, "OAbsent")
+				continue
+			}
+			want := len(oc.Aggr[0])
+			if a == 4 {
+				want++
+			}
+			same := oc.Has[0] && len(oc.Aggr[a]) == want && len(oc.Aggr[0]) > 0
+			if same {
+				for j := range oc.Aggr[0] {
+					if oc.Aggr[a][j].T != oc.Aggr[0][j].T {
+						same = false
+					}
+				}
+				if a == 4 && oc.Aggr[a][want-1].T != oc.Aggr[0][want-2].T {
+					same = false
+				}
+			}
+			if same {
+				vs := make([]int64, len(oc.Aggr[a]))
+				for j, o := range oc.Aggr[a] {
+					vs[j] = int64(o.V)
+				}
+				xs = append(xs, common.App("OSame", common.ZList(vs)))
 			} else {
-				xs[a] = common.None
+				ss := make([]string, len(oc.Aggr[a]))
+				for j, o := range oc.Aggr[a] {
+					ss[j] = du.CoqSample(o.T-base, o.V)
+				}
+				xs = append(xs, common.App("OPairs", common.List(ss)))
 			}
 		}
-		outs = append(outs, common.Tuple(common.Z(oc.MinT), common.Z(oc.MaxT), common.List(xs)))
+		outs = append(outs, common.Tuple(common.Z(oc.MinT-base), common.Z(oc.MaxT-base), common.List(cnt), common.List(xs)))
 	}
-	c.Coq = common.App("Case", coqChunk(in.Chunks[0], present[0]), common.List(others), common.List(outs))
+	c.Coq = common.App("Case", common.Z(base), common.List(encs), common.List(outs))
 	c.Obs = out
 	c.Nontrivial = len(out) >= 2
 	c.Class = fmt.Sprintf("k%d-out%d", len(in.Chunks), len(out))
@@ -311,40 +384,16 @@ func run(raw json.RawMessage) (common.Case, error) {
 		c.Class = fmt.Sprintf("k%d-out4+", len(in.Chunks))
 	}
 
-	// Go-side predicate for well-formed inputs
+	// Go-side predicate for well-formed inputs (all five aggregates present, increasing timestamps)
 	wf := true
-	for i, ch := range in.Chunks {
+	for i, e := range in.Chunks {
 		for a := 0; a < 5; a++ {
 			if !present[i][a] {
 				wf = false
 			}
 		}
-		n := len(ch[0])
-		for a := 1; a < 4; a++ {
-			if len(ch[a]) != n {
-				wf = false
-				continue
-			}
-			for j := range ch[a] {
-				if ch[a][j].T() != ch[0][j].T() {
-					wf = false
-				}
-			}
-		}
-		if len(ch[4]) != n+1 {
-			wf = false
-		} else {
-			for j := 0; j < n; j++ {
-				if ch[4][j].T() != ch[0][j].T() {
-					wf = false
-				}
-			}
-			if ch[4][n].T() != ch[0][n-1].T() {
-				wf = false
-			}
-		}
-		for j := 1; j < n; j++ {
-			if ch[0][j].T() <= ch[0][j-1].T() {
+		for j := 1; j < len(e.Ts); j++ {
+			if e.Ts[j] <= e.Ts[j-1] {
 				wf = false
 			}
 		}
@@ -381,29 +430,27 @@ func run(raw json.RawMessage) (common.Case, error) {
 	return c, nil
 }
 
-// mkChunk builds a well-formed downsampled chunk with the given timestamps.
-func mkChunk(r *rand.Rand, tsx []int64) achunk {
-	var c achunk
+// mkChunk builds a downsampled chunk with the given timestamps.
+func mkChunk(r *rand.Rand, tsx []int64) encChunk {
+	c := encChunk{Ts: tsx}
 	ctr := int64(r.Intn(1000))
-	for _, t := range tsx {
+	for range tsx {
 		cnt := int64(1 + r.Intn(20))
 		mn := int64(r.Intn(100)) - 20
 		mx := mn + int64(r.Intn(100))
 		sm := (mn+mx)*cnt/2 + 1
 		ctr += int64(r.Intn(50))
-		c[0] = append(c[0], du.Sample{float64(t), float64(cnt)})
-		c[1] = append(c[1], du.Sample{float64(t), float64(sm)})
-		c[2] = append(c[2], du.Sample{float64(t), float64(mn)})
-		c[3] = append(c[3], du.Sample{float64(t), float64(mx)})
-		c[4] = append(c[4], du.Sample{float64(t), float64(ctr)})
+		c.Vals[0] = append(c.Vals[0], float64(cnt))
+		c.Vals[1] = append(c.Vals[1], float64(sm))
+		c.Vals[2] = append(c.Vals[2], float64(mn))
+		c.Vals[3] = append(c.Vals[3], float64(mx))
+		c.Vals[4] = append(c.Vals[4], float64(ctr))
 	}
-	last := tsx[len(tsx)-1]
-	c[4] = append(c[4], du.Sample{float64(last), float64(ctr + int64(r.Intn(10)))})
+	c.Vals[4] = append(c.Vals[4], float64(ctr+int64(r.Intn(10))))
 	return c
 }
 
 func gen(r *rand.Rand, tier string, n int) []any {
-	maxLen := 400
 	var out []any
 	for len(out) < n {
 		k := 2
@@ -416,15 +463,27 @@ func gen(r *rand.Rand, tier string, n int) []any {
 		prevMin := int64(0)
 		gmax := int64(0)
 		okc := true
+		// sizes: Coq reads the observed data slowly, so most cases are just big enough
+		// to produce 2-3 output chunks (the count aggregate is cut every 120 samples)
+		shape := r.Intn(20)
 		for i := 0; i < k; i++ {
 			var ln int
-			switch r.Intn(5) {
-			case 0:
-				ln = 1 + r.Intn(5)
-			case 1:
-				ln = 115 + r.Intn(12) // around the 120 cut
-			default:
-				ln = 1 + r.Intn(maxLen)
+			switch {
+			case shape < 4: // small: a single output chunk
+				ln = 1 + r.Intn(40)
+			case shape < 17: // two or three output chunks
+				ln = 55 + r.Intn(90)
+				if i >= 2 {
+					ln = 1 + r.Intn(30)
+				}
+			default: // long chunks, up to 400 samples
+				ln = 150 + r.Intn(251)
+				if i >= 1 {
+					ln = 1 + r.Intn(150)
+				}
+			}
+			if tier == "thorough" && r.Intn(2) == 0 {
+				ln = 1 + r.Intn(400)
 			}
 			var start int64
 			if i == 0 {
@@ -465,21 +524,12 @@ func gen(r *rand.Rand, tier string, n int) []any {
 		switch r.Intn(20) {
 		case 0: // an aggregate absent in every chunk
 			a := 1 + r.Intn(4)
-			for range in.Chunks {
-				p := [5]bool{true, true, true, true, true}
-				p[a] = false
-				in.Present = append(in.Present, p)
-			}
-		case 1: // an aggregate absent in one chunk only (not well-formed: correspondence only)
-			a := 1 + r.Intn(4)
-			w := r.Intn(len(in.Chunks))
 			for i := range in.Chunks {
-				p := [5]bool{true, true, true, true, true}
-				if i == w {
-					p[a] = false
-				}
-				in.Present = append(in.Present, p)
+				in.Chunks[i].Vals[a] = nil
 			}
+		case 1: // an aggregate absent in one chunk only
+			a := 1 + r.Intn(4)
+			in.Chunks[r.Intn(len(in.Chunks))].Vals[a] = nil
 		}
 		out = append(out, in)
 	}
@@ -487,6 +537,6 @@ func gen(r *rand.Rand, tier string, n int) []any {
 }
 
 func main() {
-	common.Main(common.Prop{ID: "C40", Facts: facts, Gen: gen, Run: run, QuickN: 300, ThoroughN: 3000,
+	common.Main(common.Prop{ID: "C40", Facts: facts, Gen: gen, Run: run, QuickN: 60, ThoroughN: 800,
 		Preamble: "From Verif Require Import Lib.Dedup_Iter.\nOpen Scope Z_scope.\n"})
 }
